@@ -13,6 +13,13 @@ RULE = ('raw lines: corpus + exhaustive strings over a 10-letter hostile alphabe
 TRUSTED = ['datetime.strptime enters the model as a Section variable valid_time (the harness evaluates the real strptime '
            'on the time tag the model reports)']
 ASSUMPTIONS = ['world.testing/log.testing off; Python asserts enabled (no -O)']
+LEVEL_TEXT = ('Coq theorems over an executable Gallina model of ircmsgs.py (tag escaping, tag dict, string branch of IrcMsg.__init__, __str__): '
+              'tag-value round trip for all strings, parse(serialize m) = norm m for all well-formed m (any tags, prefix, middles, arbitrary trailing), '
+              'parsing total on a decidable domain with a refuting witness outside it (finding F3); the model is tied to the source by a regenerated '
+              'escape table / except-clause list and by a differential run (exhaustive short hostile lines + generated messages) against the real IrcMsg on every check.')
+LEVEL_NOTE = ('Trusted: Coq kernel, gen_tables.py, ExtrOcamlBasic extraction + OCaml driver, the Python harness; datetime.strptime is a Section '
+              'variable (any function); Python code is modelled not verified; the re-serialisation clause is the _str cache (trivial in the model, checked directly on the implementation).')
+TECHNIQUE = 'Coq proof (induction over strings/token lists) + regenerated tables + extracted-model differential correspondence'
 EXPLANATION = 'C05: parse/serialise model of src/ircmsgs.py; theorems in coq/C05/Props.v'
 
 ALPHA = [' ', ':', '@', ';', '=', '\\', '\r', '\n', 'a', 'é']
